@@ -232,7 +232,13 @@ func finish(r *report.Run, us []*unit, results []*unitResult, deaths []deathRec,
 	}
 	// drop derived-enumeration groups that are subsumed by a primary (single-field) group
 	prim := map[string][]*vgroup{}
+	coupledPrim := map[string][]*vgroup{}
 	for _, g := range groups {
+		if g.Kind == "coupled" {
+			k := g.Reactor + "|" + strings.SplitN(g.Msg, "(", 2)[0] + "|" + g.Oracle
+			coupledPrim[k] = append(coupledPrim[k], g)
+			continue
+		}
 		if primaryKind(g.Kind) {
 			k := g.Reactor + "|" + strings.SplitN(g.Msg, "(", 2)[0] + "|" + g.Oracle
 			prim[k] = append(prim[k], g)
@@ -253,7 +259,7 @@ func finish(r *report.Run, us []*unit, results []*unitResult, deaths []deathRec,
 			subsumed++
 			continue
 		}
-		if g.Kind == "resigned" && strings.HasSuffix(g.Class, "(signed)") && !strings.HasPrefix(g.Oracle, "process-death") {
+		if (g.Kind == "resigned" || g.Kind == "coupled") && strings.HasSuffix(g.Class, "(signed)") && !strings.HasPrefix(g.Oracle, "process-death") {
 			// the same mutation fails without a valid signature too: one defect, one signature
 			base := strings.TrimSuffix(g.Class, "(signed)")
 			if _, ok := groups[fmt.Sprintf("%s|%02x|%s|%s|%s|%s", g.Reactor, g.Ch, g.Msg, g.Field, base, g.Oracle)]; ok {
@@ -261,9 +267,27 @@ func finish(r *report.Run, us []*unit, results []*unitResult, deaths []deathRec,
 				continue
 			}
 		}
-		if !primaryKind(g.Kind) {
+		if g.Kind == "coupled" || !primaryKind(g.Kind) {
 			k2 := g.Reactor + "|" + strings.SplitN(g.Msg, "(", 2)[0] + "|" + g.Oracle
 			sub := false
+			// a coupled-group failure covers the pair failures over a subset of its fields
+			if g.Kind != "coupled" {
+				for _, p := range coupledPrim[k2] {
+					pf := map[string]bool{}
+					for _, f := range strings.Split(p.Field, "+") {
+						pf[f] = true
+					}
+					all := true
+					for _, f := range strings.Split(g.Field, "+") {
+						if !pf[f] {
+							all = false
+						}
+					}
+					if all {
+						sub = true
+					}
+				}
+			}
 			for _, p := range prim[k2] {
 				for _, f := range strings.Split(g.Field, "+") {
 					if f == p.Field || strings.HasPrefix(f, p.Field+".") || strings.HasPrefix(p.Field, f+".") {
